@@ -1058,7 +1058,25 @@ func (fx *FuncCtx) set(st *State, v ssa.Value, x Val) { st.regs[v] = x }
 
 // ---------------------------------------------------------------- instructions
 
+// flushOnce marks the Once objects whose body (executed in place) has returned to this frame as done.
+func (fx *FuncCtx) flushOnce(st *State) {
+	if len(st.onceRun) == 0 {
+		return
+	}
+	var keep []onceRec
+	for _, o := range st.onceRun {
+		if o.depth >= len(st.frames) {
+			k := HeapKey{"ONCE$done", "(Array Int Bool)"}
+			fx.heapSet(st, k, sx("store", fx.heapGet(st.heap, k), o.ref, "true"))
+		} else {
+			keep = append(keep, o)
+		}
+	}
+	st.onceRun = keep
+}
+
 func (fx *FuncCtx) exec(st *State, in ssa.Instruction) {
+	fx.flushOnce(st)
 	switch in := in.(type) {
 	case *ssa.DebugRef:
 		return
@@ -1273,6 +1291,11 @@ func (fx *FuncCtx) zeroObject(st *State, t types.Type, r string) {
 			k := fx.fieldKey(nt, "ghost$"+gf.Name, cs[0])
 			fx.heapSet(st, k, sx("store", fx.heapGet(st.heap, k), r, fx.ghostZero(gf.T)))
 		}
+	}
+	// a sync.Once inside a new object has not run
+	if _, used := st.heap["ONCE$done"]; used || true {
+		ok := HeapKey{"ONCE$done", "(Array Int Bool)"}
+		fx.heapSet(st, ok, sx("store", fx.heapGet(st.heap, ok), r, "false"))
 	}
 }
 
@@ -1750,6 +1773,9 @@ func (fx *FuncCtx) execTypeAssert(st *State, in *ssa.TypeAssert) {
 // ---------------------------------------------------------------- return
 
 func (fx *FuncCtx) doReturn(st *State, in *ssa.Return) {
+	if len(st.frames) == 0 {
+		fx.flushOnce(st)
+	}
 	// reachability: at least one returning path of the function must be satisfiable
 	rq := &Query{Obl: strings.TrimPrefix(fx.pc.Path[len(modPath):]+"."+fx.key+"/vacuity[return]", "/"), Kind: "vacuity", Hyps: st.hyps.list(), Goal: "false", Pos: fx.posStr(in.Pos()), Canary: true, AnyOf: fx.key, Trail: strings.Join(st.trail, ","), fx: fx}
 	fx.queries = append(fx.queries, rq)
